@@ -555,7 +555,14 @@ class TagAttrDict(Dict[str, "str | HTML"]):
                 nm = self._normalize_attr_name(k)
 
                 if nm in attrz:
-                    val = attrz[nm] + " " + val
+                    prev = attrz[nm]
+                    # Joining plain text with HTML() yields HTML(), which is written
+                    # verbatim, so the plain part must be attribute-escaped here.
+                    if isinstance(prev, HTML) and not isinstance(val, HTML):
+                        val = HTML(html_escape(val, attr=True))
+                    elif isinstance(val, HTML) and not isinstance(prev, HTML):
+                        prev = HTML(html_escape(prev, attr=True))
+                    val = prev + " " + val
 
                 attrz[nm] = val
 
